@@ -60,6 +60,7 @@ class NoncodingMain(Contract):
     header joins exactly the labels called for it; the ORF records come from get_orf_sequences on the same graph and sequence"""
     path, qualname, props = CNO, 'call_noncoding_peptide_main', ('C08',)
     declared_raises = ['ReferenceSeqnameNotFoundError']
+    flavor = 'novel'
     assumptions = ('havoc: ThreeFrameTVG / PeptideVariantGraph construction, translation, cleavage and traversal (not under contract); '
                    'get_orf_sequences is its own contract (OrfSequences)',)
 
@@ -79,6 +80,10 @@ class NoncodingMain(Contract):
         st.args = []
         st.kwargs = dict(tx_id='ENST_T', tx_model=st.tx, genome=st.genome, canonical_peptides=st.canon, cleavage_params=st.params,
                          orf_assignment=st.orf_assignment, w2f_reassignment=st.w2f)
+        if self.flavor == 'alt':
+            st.tx.fields['transcript'].fields['chrom'] = st.tx.fields['transcript'].fields['location'].fields['seqname']
+            st.kwargs = dict(tx_id='ENST_T', tx_model=st.tx, genome=st.genome, anno=SymObj('Anno8'), cleavage_params=st.params,
+                             w2f_reassignment=st.w2f, sec_truncation=e.bool('sec_truncation'))
         self._cur = st
         return st
 
@@ -106,6 +111,8 @@ class NoncodingMain(Contract):
 
             def tvg(I, a, k):
                 st = S()
+                if c.flavor == 'alt':
+                    return SymObj('DGraph8')        # the graph arguments of callAltTranslation are the obligations of AltTranslationMain (contracts/c09.py)
                 I.e.prove('C08/main/graph-built-from-this-transcript-as-one-without-known-orf',
                           k.get('seq') is st.seq and k.get('_id') == 'ENST_T' and k.get('cds_start_nf') is True and k.get('has_known_orf') is False
                           and k.get('cleavage_params') is st.params and k.get('gene_id') is st.gene
@@ -122,16 +129,24 @@ class NoncodingMain(Contract):
                         return S().pgraph
                     return None
                 return h
-            for nm in ('init_three_frames', 'translate'):
+            for nm in ('init_three_frames', 'translate', 'gather_sect_variants'):
                 reg.method_('DGraph8', nm, log(nm))
+            reg.method_('TxModel8', 'is_cds_start_nf', lambda I, o, a, k: I.e.bool('cds_start_nf'))
+            reg.method_('TxModel8', 'is_mrna_end_nf', lambda I, o, a, k: I.e.bool('mrna_end_nf'))
             reg.method_('PGraph8', 'create_cleavage_graph', log('create_cleavage_graph'))
 
             def call(I, o, a, k):
                 st = S()
+                if c.flavor == 'alt':
+                    return mk_anno()
                 I.e.prove('C08/main/frames-translated-and-cleaved-before-calling', [x[0] for x in st.log] == ['init_three_frames', 'translate', 'create_cleavage_graph'])
                 I.e.prove('C08/main/peptides-called-without-variants-required-against-the-canonical-pool',
                           k.get('check_variants') is False and k.get('check_orf') is True and k.get('denylist') is st.canon
                           and k.get('orf_assignment') is st.orf_assignment and k.get('w2f') is st.w2f and k.get('check_external_variants') is False and not a)
+                return mk_anno()
+
+            def mk_anno():
+                st = S()
                 anno = types.SimpleNamespace()
                 anno.sym_method = lambda I2, name, a2, k2: FnView(st.n_seq, lambda m: (SymObj('SeqTok', m=zz(m)), FnView(st.nlab(zz(m)), lambda t, m=m: SymObj('AnnoLabel', label=SymObj('LabelText', m=zz(m), t=zz(t))), tag='labels')), tag='peptide_anno.items()') \
                     if name == 'items' else (_ for _ in ()).throw(Unsupported(name))
@@ -212,6 +227,9 @@ class NoncodingMain(Contract):
 
     def post_return(self, I, st, ret):
         e = I.e
+        if self.flavor == 'alt':
+            e.prove('C09/main/returns-the-collected-records', ret is getattr(st, 'peps', ret) or isinstance(ret, set))
+            return
         ok = isinstance(ret, tuple) and len(ret) == 2
         e.prove('C08/main/returns-peptides-and-orfs', ok)
         if not ok:
@@ -222,7 +240,20 @@ class NoncodingMain(Contract):
         e.prove('C08/main/returns-the-collected-records', ret[0] is getattr(st, 'peps', ret[0]) or isinstance(ret[0], set))
 
     def post_raise(self, I, st, exc):
-        I.e.prove('C08/main/raise/only-for-a-chromosome-missing-from-the-genome', z3.And(exc.cls == 'ReferenceSeqnameNotFoundError', z3.Not(st.known_chrom)))
+        want = 'KeyError' if self.flavor == 'alt' else 'ReferenceSeqnameNotFoundError'
+        I.e.prove(f'{"C09" if self.flavor == "alt" else "C08"}/main/raise/only-for-a-chromosome-missing-from-the-genome', z3.And(exc.cls == want, z3.Not(st.known_chrom)))
+
+
+
+
+@register
+class AltTranslationCollect(NoncodingMain):
+    """callAltTranslation collects the called peptides like callNovelORF does: every called sequence becomes exactly one record whose header
+    joins exactly the labels called for it (no label set is overwritten, no sequence or label is skipped). The graph arguments are the
+    obligations of AltTranslationMain (contracts/c09.py)"""
+    path, qualname, props = 'moPepGen/cli/call_alt_translation.py', 'call_alt_translation_main', ('C09',)
+    declared_raises = ['KeyError']       # a chromosome missing from the genome is not wrapped by this command
+    flavor = 'alt'
 
 
 NATIVE = []
